@@ -77,7 +77,8 @@ class Model(object):
         top = self.stack[-1][0] if self.stack else None
         evs = []
         if top is None:
-            return [('ISA',)]
+            # a later interchange may be of the other version (ISA11 is a separator only in 00501)
+            return [('ISA',)] + ([('ISA', 'other')] if self.n_isa else [])
         if top == 'ISA':
             evs.append(('GS',))
         if top == 'GS':
@@ -116,6 +117,8 @@ class Model(object):
             assert not self.stack
             self.n_isa += 1
             cid = '%09d' % self.n_isa
+            if len(ev) > 1:
+                icvn = '00401' if icvn == '00501' else '00501'
             s = ref.isa(icvn=icvn, seg=sseg, ele=sele, sub=ssub, rep=srep, ctl=cid)     # the caller's delimiters
             self.inputs.append(s[:-1])
             eles = [[x] for x in s[:-1].split(sele)[1:]]
